@@ -164,6 +164,8 @@ type agg struct {
 	first Viol
 	count int64
 	ord   int64
+	// origin is the enumerated case that produced first (first.Case may be a smaller replay case)
+	origin json.RawMessage
 }
 
 type Options struct {
@@ -360,11 +362,11 @@ func RunCheck(p Prop, o Options) int {
 			}
 			a := viols[v.Sig]
 			if a == nil {
-				viols[v.Sig] = &agg{first: v, count: 1, ord: d.ord}
+				viols[v.Sig] = &agg{first: v, count: 1, ord: d.ord, origin: d.c}
 			} else {
 				a.count++
 				if d.ord < a.ord || (d.ord == a.ord && len(v.Case) < len(a.first.Case)) {
-					a.first, a.ord = v, d.ord
+					a.first, a.ord, a.origin = v, d.ord, d.c
 				}
 			}
 		}
@@ -415,23 +417,36 @@ func RunCheck(p Prop, o Options) int {
 	var confirmed []string
 	for _, s := range fresh {
 		a := viols[s]
-		ok := 0
-		for i := 0; i < 5; i++ {
-			var r Result
-			if p.Subprocess() {
-				var sp *subproc
-				r, sp = runInSubproc(nil, o.Self, p.ID(), a.first.Case)
-				if sp != nil {
-					sp.close()
+		rerun := func(c json.RawMessage) int {
+			ok := 0
+			for i := 0; i < 5; i++ {
+				var r Result
+				if p.Subprocess() {
+					var sp *subproc
+					r, sp = runInSubproc(nil, o.Self, p.ID(), c)
+					if sp != nil {
+						sp.close()
+					}
+				} else {
+					r = SafeRun(p, c)
 				}
-			} else {
-				r = SafeRun(p, a.first.Case)
+				for _, v := range r.Viols {
+					if v.Sig == s {
+						ok++
+						break
+					}
+				}
 			}
-			for _, v := range r.Viols {
-				if v.Sig == s {
-					ok++
-					break
-				}
+			return ok
+		}
+		ok := rerun(a.first.Case)
+		if ok < 5 && len(a.origin) > 0 && string(a.origin) != string(a.first.Case) {
+			// the smaller replay case does not show it (a defect of the harness' replay encoding):
+			// confirm with the enumerated case it came from and keep that as the replay
+			if rerun(a.origin) == 5 {
+				fmt.Fprintf(os.Stderr, "HARNESS-NOTE: %s: replay case reproduced %d/5, the enumerated case 5/5; the enumerated case is kept as replay\n", s, ok)
+				a.first.Case = a.origin
+				ok = 5
 			}
 		}
 		if ok == 5 {
